@@ -56,7 +56,31 @@ func monitor(r *run) []finding {
 		lastWrite = 0 // seq
 		resps     []vh.J
 		parentObs vh.J
+		byRid     = map[int]vh.J{} // block answers by request id
+		refused   = false
 	)
+	ints := func(e vh.J, k string) []int {
+		v, _ := e[k].([]int)
+		return v
+	}
+	// the classes block `tag` mentions that are neither among the NewClasses of answer `resp` nor mentioned by a
+	// block of `chain` (NewClassesSufficient of Sync.tla, negated)
+	lacking := func(tag int, resp vh.J, chain []int) []*wclass {
+		var out []*wclass
+		have := w.expectedDefs(chain)
+		for _, id := range w.mentions(tag) {
+			if _, ok := have[id]; !ok && !containsInt(ints(resp, "nc"), id) {
+				out = append(out, w.classes[id-1])
+			}
+		}
+		return out
+	}
+	kindOf := func(c *wclass) string {
+		if c.sierra {
+			return "sierra"
+		}
+		return "cairo0"
+	}
 	add := func(step int, key, what string) {
 		if !seen[key] {
 			seen[key] = true
@@ -80,6 +104,7 @@ func monitor(r *run) []finding {
 			if gs(e, "r") != "err" {
 				heard[gi(e, "ver")] = true
 				resps = append(resps, e)
+				byRid[gi(e, "rid")] = e
 			}
 		case "RespLatest":
 			if gs(e, "r") == "ok" {
@@ -88,6 +113,18 @@ func monitor(r *run) []finding {
 		case "Obs":
 			if gs(e, "outcome") == "parent" {
 				parentObs = e
+			}
+			if gb(e, "refused") {
+				refused = true
+				detail := "other"
+				if resp := byRid[gi(e, "rid")]; resp != nil {
+					for _, c := range lacking(gi(e, "tag"), resp, shadow) {
+						detail = "newclasses-lack-declared-" + kindOf(c) + "-class"
+					}
+				}
+				add(i, "sync:store-refuses-honest-successor:"+detail, fmt.Sprintf(
+					"Store refused b%d, the source's successor of the node's head b%d, served unaltered (%s): %s",
+					gi(e, "tag"), head(), detail, gs(e, "err")))
 			}
 		case "Stored":
 			tag, h := gi(e, "tag"), gi(e, "h")
@@ -104,6 +141,13 @@ func monitor(r *run) []finding {
 				}
 				if !gb(e, "hashok") {
 					add(i, "sync:stored-hash-mismatch", fmt.Sprintf("head after storing b%d does not carry its hash", tag))
+				}
+			}
+			if resp := byRid[gi(e, "rid")]; resp != nil && tag > 0 && h == len(shadow) {
+				for _, c := range lacking(tag, resp, shadow) {
+					add(i, "sync:newclasses-insufficient-at-store:"+kindOf(c), fmt.Sprintf(
+						"b%d (height %d) was stored from an answer whose NewClasses %v lack class #%d, which the block mentions and no block below it does",
+						tag, h, ints(resp, "nc"), c.id))
 				}
 			}
 			if len(revSince) > 0 {
@@ -202,6 +246,8 @@ func monitor(r *run) []finding {
 				detail := "other"
 				if len(c) == 1 && len(shadow) > 1 && shadow[0] != c[0] {
 					detail = "source-shrunk-to-new-genesis"
+				} else if refused {
+					detail = "honest-successor-refused"
 				}
 				add(i, "sync:no-convergence:"+detail, fmt.Sprintf(
 					"source stable at %v and answering honestly, node stays at %v", c, shadow))
